@@ -1,0 +1,38 @@
+//go:build verif && (verif_all || verif_c08)
+// +build verif
+// +build verif_all verif_c08
+
+package gocql
+
+// Verification hooks (build tag `verif`): thin exported wrappers over the
+// internal stream-id allocator so that the external verification harness can
+// drive it. Add-only.
+
+import (
+	"github.com/gocql/gocql/internal/streams"
+)
+
+// VerifStreams wraps an internal/streams.IDGenerator.
+type VerifStreams struct{ g *streams.IDGenerator }
+
+// VerifStreamsNew exposes streams.New(protocol).
+func VerifStreamsNew(protocol int) *VerifStreams { return &VerifStreams{g: streams.New(protocol)} }
+
+// GetStream exposes IDGenerator.GetStream.
+func (v *VerifStreams) GetStream() (int, bool) { return v.g.GetStream() }
+
+// Clear exposes IDGenerator.Clear.
+func (v *VerifStreams) Clear(stream int) bool { return v.g.Clear(stream) }
+
+// Available exposes IDGenerator.Available.
+func (v *VerifStreams) Available() int { return v.g.Available() }
+
+// NumStreams exposes IDGenerator.NumStreams.
+func (v *VerifStreams) NumStreams() int { return v.g.NumStreams }
+
+// String exposes IDGenerator.String (hex words of the bitset).
+func (v *VerifStreams) String() string { return v.g.String() }
+
+// VerifStreamsSetYield installs the hook called before every atomic operation
+// of the allocator (internal/streams/yield_on.go).
+func VerifStreamsSetYield(f func(int)) { streams.SetVerifYield(f) }
